@@ -59,7 +59,7 @@ type spanChecker struct {
 
 // expected computes the expected span of n and checks n and its descendants.
 // present=false means n has no constituent at all.
-func (sc *spanChecker) expected(n ast.Vertex, parentKind, role string) (sp span, present bool) {
+func (sc *spanChecker) expected(n ast.Vertex, parentKind, role string, spine bool) (sp span, present bool) {
 	kind := obs.Kind(n)
 	fs := obs.Fields(n)
 	type cons struct {
@@ -85,7 +85,9 @@ func (sc *spanChecker) expected(n ast.Vertex, parentKind, role string) (sp span,
 			}
 		case obs.FNode:
 			if f.Node != nil {
-				s, ok := sc.expected(f.Node, kind, f.Name)
+				// the class-reference chain below a PHP 5 'new' (known, test-pinned span defect) is tagged in signatures
+				sub := (spine && (f.Name == "Var" || f.Name == "Class" || f.Name == "Prop" || f.Name == "Name")) || (kind == "ExprNew" && f.Name == "Class" && sc.fam == "fam5")
+				s, ok := sc.expected(f.Node, kind, f.Name, sub)
 				if ok {
 					cs = append(cs, cons{s.s, s.e, f.Node})
 				}
@@ -105,7 +107,7 @@ func (sc *spanChecker) expected(n ast.Vertex, parentKind, role string) (sp span,
 				if obs.IsNil(k) {
 					continue
 				}
-				s, ok := sc.expected(k, kind, f.Name)
+				s, ok := sc.expected(k, kind, f.Name, false)
 				if ok {
 					items = append(items, cons{s.s, s.e, k})
 				}
@@ -167,6 +169,9 @@ func (sc *spanChecker) expected(n ast.Vertex, parentKind, role string) (sp span,
 		}
 	}
 	where := kind + "[" + slots + "]<" + parentKind + "." + role
+	if spine {
+		where = "new-class-ref-chain:" + where
+	}
 	if len(real) == 0 {
 		// no constituent at all
 		if recorded != nil && !(recorded.StartPos == -1 && recorded.EndPos == -1) {
@@ -249,6 +254,6 @@ func (sc *spanChecker) fail(sig, what string) {
 // checkSpans runs the span monitor on an error-free tree.
 func checkSpans(c *core.Ctx, root ast.Vertex, src []byte, ver string) (nodes, minus int) {
 	sc := &spanChecker{c: c, src: src, w: core.W(src, ver), fam: fmt.Sprintf("fam%d", obs.Fam(ver)), lines: obs.NewLines(src)}
-	sc.expected(root, "", "")
+	sc.expected(root, "", "", false)
 	return sc.nodes, sc.minus
 }
